@@ -47,6 +47,9 @@ def run(ctx, chk):
     from . import c20 as _c20
     chk.rule("V4", "validators of the request bodies decoded by the backend server accept exactly the protocol-valid encodings (C20/X2)")
     _c20.run_on(fb, _Renamed(chk, {"X2": "V4", "X1": "V4"}), _validity.VALID)
+    from . import xlist
+    xlist.apply("C05", fb, chk)
+    chk.floor("V6", n("V6"), 30)
     chk.floor("V1", n("V1"), 38)
     chk.floor("V2", n("V2"), 150)
     chk.floor("V3", n("V3"), 6)
